@@ -352,6 +352,21 @@ def run_case(args):
         if api == "gen_prepend":
             argv += ["--prepend", "PREPENDED = 1\n"]
         calls = [lambda: cli.main(argv)]
+    elif api == "gen_imports_file":
+        # the analysed module doubles as the file whose imports are to be copied; both are named by their BARE file names from inside
+        # the project directory, which is on sys.path (what `python -m cdd gen ...` run there looks like)
+        outputs = [out_file]
+        argv = ["gen", "--name-tpl", "{name}Config", "--input-mapping", "analysed_mod.py", "--parse", "function", "--emit", "class",
+                "--output-filename", "out.py", "--imports-from-file", "analysed_mod.py"]
+
+        def in_project_dir():
+            old = os.getcwd()
+            os.chdir(work)
+            try:
+                cli.main(argv)
+            finally:
+                os.chdir(old)
+        calls = [in_project_dir]
     else:
         return {"case": case, "skip": "api handled by C20"}
 
